@@ -4,8 +4,9 @@
 (*          {"e":"Format","text":[bytes],"out":[bytes],"res":"ok"}   format(os, text) wrote out  *)
 (* Soundness: the trace specification does not replay the operational machine.  It parses the   *)
 (* text and the output (here, in TLA+) and adopts them as inp/out; what is required of them are  *)
-(* exactly the declarative predicates of TextBlock.tla, listed as invariants in the .cfg.  Any   *)
-(* layout that keeps the words, the indentation, the line starts and the width is accepted.     *)
+(* exactly the declarative predicates of TextBlock.tla (DeclOK, conjoined to the Format step so *)
+(* that the first unexplained event is where TLC stops; also listed as invariants).  Any layout  *)
+(* that keeps the words, the indentation, the line starts and the width is accepted.            *)
 EXTENDS TextBlock, TLC, Json, IOUtils
 VARIABLE l
 Log == ndJsonDeserialize(IOEnv.TRACE)
@@ -34,9 +35,10 @@ TNext == /\ l <= Len(Log) /\ l' = l + 1
                /\ cfg' = [indent |-> Ev.indent, width |-> Ev.width, first |-> Ev.first]
                /\ inp' = <<>> /\ out' = <<>>
             \/ /\ Ev.e = "Format" /\ Ev.res = "ok"
+               /\ UNCHANGED cfg
                /\ inp' = ParseText(Ev.text)
                /\ out' = ParseOut(Ev.out)
-               /\ UNCHANGED cfg
+               /\ DeclOK'             \* the event is explained only if the output satisfies all four predicates
          /\ cur' = 0 /\ dash' = FALSE
 TSpec == TInit /\ [][TNext]_<<vars, l>>
 Accepted == TLCGet("stats").diameter = Len(Log) + 1
